@@ -477,7 +477,7 @@ def pred_c11(ops, impl):
         if t[0] == "app":
             app = t[1]
         cur = ids.setdefault(app, set())
-        if t[0] in ("store", "store-w", "store-as", "dup", "store-id"):
+        if t[0] in ("store", "store-w", "store-c", "store-as", "dup", "store-id"):
             if out.startswith("id "):
                 i = int(out.split()[1])
                 if i in cur:
@@ -511,7 +511,7 @@ def pred_c11(ops, impl):
         if t[0] == "app":
             app = t[1]
         cur = ids_now.setdefault(app, set())
-        if t[0] in ("store", "store-w", "store-as", "dup", "store-id") and out.startswith("id "):
+        if t[0] in ("store", "store-w", "store-c", "store-as", "dup", "store-id") and out.startswith("id "):
             cur.add(int(out.split()[1]))
         m = re.fullmatch(r"exec (u\d) \(inst (\d+) \(\(w 6b 01\)( \(attr i 1\))?\) - (l\d+) (~|u\d) ~\)", op)
         if m and int(m.group(2)) in cur and out == "err":
